@@ -70,8 +70,8 @@ def child_writes_overrides_into_parent_context():
 
 @mutant
 def install_module_updates_existing_in_place():
-    edit('sourcer/grammar.py', "    if '.' not in name:\n        sys.modules[name] = module\n        return",
-         "    if '.' not in name:\n        if name in sys.modules:\n            sys.modules[name].__dict__.update(module.__dict__)\n        else:\n            sys.modules[name] = module\n        return")
+    edit('sourcer/grammar.py', "    sys.modules[name] = module\n    if '.' not in name:\n        return\n",
+         "    if name in sys.modules:\n        sys.modules[name].__dict__.update(module.__dict__)\n    else:\n        sys.modules[name] = module\n    if '.' not in name:\n        return\n")
 
 @mutant
 def last_error_position_kept_at_module_level():
